@@ -147,6 +147,11 @@ def operandEmitter (ops : TokOps σ) (fuel : Nat) (which : String) (s : σ) : R 
       | .ok none =>
         if which = "expect_wide_immediate" then
           .ok ((), ops.setC s (((c.addLink ⟨.word, loc, c.dataLen, 2, nodes, none⟩).push 0).push 0))
+        else if which = "expect_hmem_immediate" then
+          -- `(E >= $FF00 && E <= $FFFF) ? <E : E` resolved as a byte at link time
+          let high := nodes ++ [.val 0xFF00, .ge] ++ nodes ++ [.val 0xFFFF, .le, .andLogical] ++
+            nodes ++ [.lo] ++ nodes ++ [.ternary]
+          .ok ((), ops.setC s ((c.addLink ⟨.byte, loc, c.dataLen, 1, high, none⟩).push 0))
         else
           .ok ((), ops.setC s ((c.addLink ⟨.byte, loc, c.dataLen, 1, nodes, none⟩).push 0))
 
